@@ -278,6 +278,11 @@ def _height_offset(e: ast.AST, sn: str):
     bt = canon(base)
     if bt in (f"{sn}.height", f"len({sn}.levels)", f"len({sn}._levels)"):
         return off
+    # len(<prefix of the levels>): the prefix's own length
+    if isinstance(base, ast.Call) and canon(base.func) == "len" and len(base.args) == 1 and isinstance(base.args[0], ast.Subscript):
+        k = _levels_source(base.args[0], sn)
+        if k is not None and k <= 0:
+            return k + off
     return None
 
 
